@@ -32,6 +32,9 @@ type c17Adv struct {
 	Pfx  string   `json:"pfx"`
 	LP   uint32   `json:"lp,omitempty"`
 	Comm []uint32 `json:"comm,omitempty"`
+	// Invalid: the advertisement carries 64 communities, which the session must refuse (the whole Set call
+	// fails and must leave the session's routes as they were)
+	Invalid bool `json:"invalid,omitempty"`
 }
 
 type c17Program struct {
@@ -255,6 +258,12 @@ func mkAdvs(set []c17Adv) []*bgp.Advertisement {
 			cc, _ := community.New(fmt.Sprintf("%d:%d", c>>16, c&0xffff))
 			adv.Communities = append(adv.Communities, cc)
 		}
+		if a.Invalid {
+			for i := 0; i < 64; i++ {
+				cc, _ := community.New(fmt.Sprintf("65000:%d", i+1))
+				adv.Communities = append(adv.Communities, cc)
+			}
+		}
 		out = append(out, adv)
 	}
 	return out
@@ -300,7 +309,18 @@ func c17Body(h *c17H) func(s *verifrt.Sched) {
 			})
 		}
 		for _, set := range h.prog.Sets {
-			if err := sess.Set(mkAdvs(set)...); err != nil {
+			invalid := false
+			for _, a := range set {
+				invalid = invalid || a.Invalid
+			}
+			err := sess.Set(mkAdvs(set)...)
+			if invalid {
+				if err == nil {
+					h.problems = append(h.problems, "Set with an advertisement of 64 communities was accepted")
+				}
+				continue // a refused Set requests nothing: the last requested set stays
+			}
+			if err != nil {
 				h.problems = append(h.problems, "Set failed: "+err.Error())
 			}
 			h.lastSet = map[string]string{}
@@ -395,7 +415,9 @@ func c17Check(res *verifrt.Result, h *c17H, s *verifrt.Sched, mk func(s *verifrt
 }
 
 func c17Programs(thorough bool) []c17Program {
-	a1, a2, a3 := c17Adv{Pfx: "10.0.0.1/32"}, c17Adv{Pfx: "10.0.0.2/32"}, c17Adv{Pfx: "10.0.0.3/32"}
+	// a2 and a3 have lengths that are not a multiple of 8 and non-zero bits in the partial octet
+	a1, a2, a3 := c17Adv{Pfx: "10.0.0.1/32"}, c17Adv{Pfx: "192.168.10.128/25"}, c17Adv{Pfx: "10.1.2.192/26"}
+	bad := c17Adv{Pfx: "10.9.9.9/32", Invalid: true}
 	a1c := c17Adv{Pfx: "10.0.0.1/32", LP: 200, Comm: []uint32{0xfde80001}}
 	a1lp1, a1lp2 := c17Adv{Pfx: "10.0.0.1/32", LP: 100}, c17Adv{Pfx: "10.0.0.1/32", LP: 200}
 	a1cm1, a1cm2 := c17Adv{Pfx: "10.0.0.1/32", Comm: []uint32{0xfde80001}}, c17Adv{Pfx: "10.0.0.1/32", Comm: []uint32{0xfde80002}}
@@ -419,6 +441,10 @@ func c17Programs(thorough bool) []c17Program {
 		{Name: "ibgp;set-A;set-communities-only-change;no-drop", Sets: [][]c17Adv{{a1cm1, a2}, {a1cm2, a2}}, IBGP: true},
 		{Name: "set-AB;set-A;set-AC;set-ABC;no-drop", Sets: [][]c17Adv{{a1, a2}, {a1}, {a1, a3}, {a1, a2, a3}}},
 		{Name: "set-A;set-empty;set-A;no-drop;keepalive1", Sets: [][]c17Adv{A, {}, A}, Keepalive: 1},
+		// a refused Set (in the middle of the list, at its start, after a change) leaves the routes as they were, also across a reconnect
+		{Name: "set-ABC;refused-set(A,bad,B,C);drop1", Sets: [][]c17Adv{{a1, a2, a3}, {a1, bad, a2, a3}}, Drops: 1},
+		{Name: "set-A;set-B;refused-set(bad,A);drop1", Sets: [][]c17Adv{A, {a2, a3}, {bad, a1}}, Drops: 1},
+		{Name: "set-A;refused-set(C,bad);set-AB;no-drop", Sets: [][]c17Adv{{a1}, {a3, bad}, {a1, a2}}},
 		{Name: "ibgp;set-A;set-B;set-attr-change;close;no-drop", Sets: [][]c17Adv{A, {a2, a3}, {a2, a3, a1c}}, Close: true, IBGP: true},
 	}
 	return progs
